@@ -49,7 +49,10 @@ CAP_PATTERNS = {
 TIER_CAPS = {
     # per-harness wall-clock cap (s), address-space cap (KiB), parallel jobs
     "quick": dict(timeout=900, mem_kib=14 * 1024 * 1024, jobs=14),
-    "thorough": dict(timeout=3600, mem_kib=24 * 1024 * 1024, jobs=10),
+    # same address-space cap as quick: with a 24 GiB cap the *same* goto program of c12_capacity
+    # came out of `cargo kani` with three loops unfolded (1345 instead of 1342 checks) in some
+    # environments and then failed spuriously on pointer checks; cause not found (DESIGN.md 5)
+    "thorough": dict(timeout=3600, mem_kib=14 * 1024 * 1024, jobs=10),
     # counterexample extraction: kani-driver loads CBMC's whole JSON trace into memory
     "playback": dict(timeout=3600, mem_kib=44 * 1024 * 1024, jobs=4),
 }
